@@ -6,6 +6,10 @@
   AHP/Model/XPathSpec.lean (syntax trees `P` with three precedence levels, the recursive evaluator
   `evalP`, `specAxis`, `specEval`).  Lemmas: AHP/Lemmas/XPath*.lean.
 
+  Text level: AHP/Model/XPathParse.lean (the regex tokenizers of `parsing.py` / `_body.py`: `parseExpr`),
+  AHP/Model/XPathRender.lean (surface syntax `S`, `SurfStep`, canonical text `renderExpr`).  Lemmas:
+  AHP/Lemmas/XPathParse*.lean.
+
   Numbers are an arbitrary `Num N` throughout (the driver instantiates `Float`).
   `Option` = "raises"; error classes are not distinguished.
 -/
@@ -13,6 +17,7 @@ import AHP.Lemmas.XPathSteps
 import AHP.Lemmas.XPathOpt
 import AHP.Lemmas.XPathDoc
 import AHP.Lemmas.XPathPipeline
+import AHP.Lemmas.XPathParseSteps
 import AHP.Gen.Tables
 namespace AHP.C14
 open AHP AHP.XPath
@@ -144,6 +149,86 @@ theorem compile_evaluate_eq_denotation (d : Doc) (hp : PreOrder d) (ss : List (S
 theorem entry_points_agree (d : Doc) (steps : List (Step N)) (i : Nat) :
     evaluate nm d steps [i] = evaluate nm d steps [i, i] := by
   simp [evaluate, dedup]
+
+/-! #### C14f — from the TEXT of an expression -/
+
+/-- C14f, one predicate: the body tokenizer (`parseBodyStringIntoBodyElements` before its constant folding: the
+    element kinds in the order of `ALL_BODY_ELEMENT_RES`, groups, function calls with comma-separated arguments,
+    white space handling) reads the canonical text of every writable predicate — any size, any nesting of
+    groups and function arguments, any operator tree — as its in-order flat list. -/
+theorem parse_render_body (p : S N) (hw : S.wf nm p) : parseBody nm (renderS p) = some (flatten p.toP) :=
+  parseBody_render nm p hw
+
+/-- C14f, the bracket scan: `BRACKETED_SUBSET_RE` cuts the canonical text of a writable predicate out of its
+    `[…]` exactly — whatever brackets and quotes its string literals contain — and hands back what follows. -/
+theorem bracket_render (p : S N) (hw : S.wf nm p) (rest : Str) :
+    bracket ('[' :: (renderS p ++ ']' :: rest)) = some (renderS p, skipSp rest) :=
+  bracket_safe (render_bsafe nm p hw) rest
+
+/-- C14f **parse_render**: for every writable expression — any number of steps, lead-in `/` or `//`, optional
+    axis, tag name or `*` in any letter case, any number of predicates of any size — tokenizing its canonical
+    text (`parseXPathStrIntoOperations` without the constant folding) yields exactly the flat form of its
+    syntax: the steps with lower-cased names and one in-order body-element list per predicate. -/
+theorem parse_render (ss : List (SurfStep N)) (hw : ∀ s ∈ ss, s.wf nm) :
+    parseExpr nm (renderExpr ss) = some ((flattenSteps (ss.map SurfStep.toSStep)).map PStep.ofStep) :=
+  parseExpr_render nm ss hw
+
+/-- C14f: hence `XPathExpression(text)` (tokenize, then fold constants) on the canonical text is the compile step
+    of C14b/d on the flat form of the syntax. -/
+theorem compile_text_eq_compile_syntax (ss : List (SurfStep N)) (hw : ∀ s ∈ ss, s.wf nm) :
+    compileText nm (renderExpr ss) = compileSteps nm (flattenSteps (ss.map SurfStep.toSStep)) :=
+  compileText_render nm ss hw
+
+/-- C14f + C14d, **from text to denotation**: take any writable expression whose predicates respect the three
+    precedence levels, write it down canonically, give the TEXT to the engine (tokenize → fold constants →
+    evaluate).  On every pre-order document and from every start collection the result is what the expression
+    denotes (`specEval` of its abstract syntax); and when the constructor raises, some predicate of the expression
+    has no value on any tag. -/
+theorem text_evaluate_eq_denotation (d : Doc) (hp : PreOrder d) (ss : List (SurfStep N))
+    (hs : ∀ s ∈ ss, s.wf nm) (hw : ∀ s ∈ ss, ∀ p ∈ s.preds, P.wf 3 p.toP = true) :
+    match compileText nm (renderExpr ss) with
+    | some cs => ∀ start, evaluate nm d cs start = specEval nm d (ss.map SurfStep.toSStep) start
+    | none => ∃ s ∈ ss, ∃ p ∈ s.preds, ∀ c, evalP nm c p.toP = none := by
+  rw [compileText_render nm ss hs]
+  have hw' : ∀ s ∈ ss.map SurfStep.toSStep, ∀ p ∈ s.preds, P.wf 3 p = true ∧ P.noNull p = true := by
+    intro s' hs' p' hp'
+    obtain ⟨s, hsm, rfl⟩ := List.mem_map.1 hs'
+    simp only [SurfStep.toSStep, toPs_eq_map] at hp'
+    obtain ⟨p, hpm, rfl⟩ := List.mem_map.1 hp'
+    exact ⟨hw s hsm p hpm, toP_noNull p⟩
+  have h := compile_evaluate_eq_denotation nm d hp (ss.map SurfStep.toSStep) hw'
+  cases hc : compileSteps nm (flattenSteps (ss.map SurfStep.toSStep)) with
+  | some cs => rw [hc] at h; exact h
+  | none =>
+    rw [hc] at h
+    obtain ⟨s', hs', p', hp', hev⟩ := h
+    obtain ⟨s, hsm, rfl⟩ := List.mem_map.1 hs'
+    simp only [SurfStep.toSStep, toPs_eq_map] at hp'
+    obtain ⟨p, hpm, rfl⟩ := List.mem_map.1 hp'
+    exact ⟨s, hsm, p, hpm, hev⟩
+
+/-- Non-vacuity of C14f: `//Div[@n + 2 = -.5 and contains(concat("a]b", text()), 'x"')][last()]/ancestor-or-self::*`
+    is writable whenever `float("2")` and `float("-.5")` are defined; the text is what one expects. -/
+example (two mhalf : N) (h2 : nm.parse ['2'] = some two) (h5 : nm.parse ['-', '.', '5'] = some mhalf) :
+    let e : List (SurfStep N) := [
+      { dbl := true, axis := none, name := ['D', 'i', 'v'],
+        preds := [.bin (.bool .and)
+                    (.bin (.cmp .eq) (.bin (.arith .add) (.attr ['n']) (.num ⟨false, [2], none⟩ two)) (.num ⟨true, [], some [5]⟩ mhalf))
+                    (.contains (.concat [.str ['a', ']', 'b'], .text]) (.str ['x', '"'])),
+                  .last] },
+      { dbl := false, axis := some .ancestorOrSelf, name := ['*'], preds := [] }]
+    (∀ s ∈ e, s.wf nm) ∧
+    renderExpr e = "//Div[@n + 2 = -.5 and contains(concat(\"a]b\", text()), 'x\"')][last()]/ancestor-or-self::*".toList := by
+  have d2 : digitChar 2 = '2' := by decide
+  have d5 : digitChar 5 = '5' := by decide
+  refine ⟨?_, ?_⟩
+  · intro s hs
+    simp only [List.mem_cons, List.not_mem_nil, or_false] at hs
+    rcases hs with rfl | rfl
+    · simp [SurfStep.wf, tagNameOk, isNameStart, isNameChar, isAlpha, isDigit, S.wfs, S.wf, NumLit.wf, NumLit.text, d2, d5, h2, h5,
+        attrNameOk, strOk, quoteOf]
+    · simp [SurfStep.wf, tagNameOk, S.wfs]
+  · simp [renderExpr, renderStep, renderPreds, renderS, renderArgs, axisPrefix, axisText, opText, NumLit.text, quoteOf, d2, d5]
 
 end
 
